@@ -2,7 +2,7 @@
    Print Assumptions beneath.  Definitions: C06/Model.v, C06/LibPy.v (tables: C06/Gen.v, regenerated);
    domains: C06/Proofs*.v.  str = list N (code points), Ok/Err = the exception monad. *)
 From Coq Require Import ZArith.
-From Wz Require Import lib.Bytes lib.Utf8 C06.LibPy C06.Gen C06.Model C06.Proofs C06.Proofs2 C06.Proofs3 C06.Proofs4 C07.Gen C07.Model C06.Proofs5 C06.Proofs6.
+From Wz Require Import lib.Bytes lib.Utf8 C06.LibPy C06.Gen C06.Model C06.Proofs C06.Proofs2 C06.Proofs3 C06.Proofs4 C07.Gen C07.Model C06.Proofs5 C06.Proofs6 C06.ProofsQuoted.
 Open Scope N_scope.
 
 (* the regex texts the hand-written matchers stand for are those of the current source *)
@@ -238,3 +238,32 @@ Theorem C06_date_roundtrip : forall (instant : Type) (fields_of : instant -> dat
   forall i, parse_date_m instant instant_of (http_date_m instant fields_of i) = Some i.
 Proof. exact date_roundtrip. Qed.
 Print Assumptions C06_date_roundtrip.
+
+(* ------------------------------------------------------------------ option headers with always-quoted values *)
+(* what the multipart encoder writes in Content-Disposition: every value wrapped in quotes WITHOUT escaping.
+   Side conditions (all boolean): header_ok h (non-empty, no ';', unchanged by str.strip), keys lower-case tokens
+   without '*' (opt_key_ok: the parser lower-cases keys and applies RFC 2231 to keys ending in '*'), keys distinct,
+   values quoted_plain (no double quote, no backslash, no literal %22; empty values, ';', '=', blanks and any other
+   text incl. CR/LF are fine for the model).  The parser returns the stripped header, which header_ok makes h itself. *)
+Theorem C06_options_always_quoted : forall h o,
+  header_ok h = true ->
+  (forall kv, In kv o -> opt_key_ok (fst kv) = true /\ quoted_plain (snd kv) = true) ->
+  keys_distinct o = true ->
+  parse_options_header (h ++ flat_map (fun kv => [SEMI; SP] ++ fst kv ++ EQ :: DQ :: snd kv ++ [DQ]) o) = Ok (h, o).
+Proof. exact options_always_quoted_In. Qed.
+Print Assumptions C06_options_always_quoted.
+(* the same with one boolean domain predicate *)
+Theorem C06_options_always_quoted_bool : forall h o, quoted_opt_domain h o = true ->
+  parse_options_header (quoted_options_text h o) = Ok (h, o).
+Proof. exact options_always_quoted. Qed.
+Print Assumptions C06_options_always_quoted_bool.
+(* form-data; name=<non-ASCII>; filename=<empty>  and  filename with ';', '=' and blanks *)
+Example C06_options_always_quoted_inhabited :
+  let h := [102; 111; 114; 109; 45; 100; 97; 116; 97] in
+  let o1 := [([110; 97; 109; 101], [102; 239; 101; 108; 100; 32; 8364]); ([102; 105; 108; 101; 110; 97; 109; 101], [])] in
+  let o2 := [([110; 97; 109; 101], [102; 239; 101; 108; 100; 32; 8364]); ([102; 105; 108; 101; 110; 97; 109; 101], [97; 32; 98; 59; 32; 99; 61; 100; 32; 233; 46; 116; 120; 116])] in
+  quoted_opt_domain h o1 = true /\ quoted_opt_domain h o2 = true
+  /\ parse_options_header (quoted_options_text h o1) = Ok (h, o1)
+  /\ parse_options_header (quoted_options_text h o2) = Ok (h, o2).
+Proof. repeat split; vm_compute; reflexivity. Qed.
+Print Assumptions C06_options_always_quoted_inhabited.
